@@ -47,6 +47,9 @@ pub struct Spec {
     pub dynstr_pad: usize,
     /// with a split load: vaddr = file offset - delta instead of + delta (needs dynstr_pad >= delta)
     pub split_load_neg: bool,
+    /// extra (empty, non-allocated) sections whose names merely END in the names the readers look for
+    /// (`.orig.note.gnu.build-id`, `.old.dynstr`), stored in front of the real ones in .shstrtab
+    pub decoy_names: bool,
 }
 
 impl Default for Spec {
@@ -66,6 +69,7 @@ impl Default for Spec {
             split_load_delta: 0,
             dynstr_pad: 0,
             split_load_neg: false,
+            decoy_names: false,
             rodata_first: false,
         }
     }
@@ -129,10 +133,17 @@ pub fn build(spec: &Spec) -> Built {
             v.push(".rodata");
         }
         v.push(".text");
+        if spec.decoy_names {
+            v.push(".orig.note.gnu.build-id");
+        }
         if spec.section_note {
             v.push(".note.gnu.build-id");
         }
-        v.extend([".shstrtab", ".dynamic", ".dynstr"]);
+        v.extend([".shstrtab", ".dynamic"]);
+        if spec.decoy_names {
+            v.push(".old.dynstr");
+        }
+        v.push(".dynstr");
         v
     } else {
         vec![]
@@ -296,6 +307,8 @@ pub fn build(spec: &Spec) -> Built {
                 ".shstrtab" => sh(&mut w, "sh_shstrtab", name_offs[i], 3, 0, shstr_off, shstr.len(), 0, 1),
                 ".dynamic" => sh(&mut w, "sh_dynamic", name_offs[i], 6, 3, dyn_off, dyn_len, dynstr_idx, ws as u64),
                 ".dynstr" => sh(&mut w, "sh_dynstr", name_offs[i], 3, 2, dynstr_off, dynstr.len(), 0, 1),
+                ".orig.note.gnu.build-id" => sh(&mut w, "sh_decoy_note", name_offs[i], 1, 0, text_off, 0, 0, 1),
+                ".old.dynstr" => sh(&mut w, "sh_decoy_dynstr", name_offs[i], 1, 0, text_off, 0, 0, 1),
                 _ => unreachable!(),
             }
         }
